@@ -332,6 +332,13 @@ func c19(r *core.Report) {
 		}
 	}
 
+	// ---- C19-QUERY-PRIVATE: queries run under the read lock, concurrently and re-entrantly (a callback may
+	// query the cache): a query that stores to a Cache field, or sorts a slice whose backing array is held in
+	// cache state, rearranges the entries another enumeration is walking
+	r.Rule("C19-QUERY-PRIVATE", "every store to a Cache field holds the write lock, and every slice the package sorts is backed by an array private to the call", 6)
+	ruleWritesExclusive(r, core.NewLocks(p, false), "C19-QUERY-PRIVATE", "p/kademlia:Cache")
+	ruleSortPrivate(r, "C19-QUERY-PRIVATE", "p/kademlia")
+
 	// ---- C19-CLOSEST / C19-CLOSER
 	r.Rule("C19-CLOSEST", "Closest takes the first entry ForEach emits; ForEachCloser forwards exactly the entries strictly nearer to x than the locus and stops at the first that is not", 3)
 	{
@@ -626,5 +633,91 @@ func ruleCmpShape(r *core.Report, ruleID string) {
 		}
 		_ = n
 		r.Check(okLZ, ruleID, "LeadingZeros unit", p.Pos(lzf.Pos()), "every constant credit of leading zeros is 8 bits per byte skipped", "LeadingZeros miscounts: "+why+": keys sharing a long prefix with the locus get a far too low bucket index, so the cache sheds its nearest entries first and the bucket order is not the distance order")
+	}
+}
+
+// ruleSortPrivate: every slices.SortFunc / sort.Slice call in package rel sorts a slice whose backing array does
+// not come from a struct field (parameters are followed to the arguments at the module's call sites, two levels up).
+func ruleSortPrivate(r *core.Report, ruleID, rel string) {
+	p := r.P
+	var fieldHit func(v ssa.Value, up int, seen map[ssa.Value]bool) ssa.Value
+	fieldHit = func(v ssa.Value, up int, seen map[ssa.Value]bool) ssa.Value {
+		var hit ssa.Value
+		core.BackingOrigins(p, v, 3, func(x ssa.Value) bool {
+			if hit != nil || seen[x] {
+				return false
+			}
+			switch y := x.(type) {
+			case *ssa.FieldAddr:
+				if _, local := y.X.(*ssa.Alloc); local {
+					return true
+				}
+				if _, isSl := derefType(y.Type()).Underlying().(*types.Slice); isSl {
+					hit = y
+					return false
+				}
+			case *ssa.Parameter:
+				if up >= 2 {
+					return true
+				}
+				seen[x] = true
+				g := y.Parent()
+				idx := -1
+				for i, prm := range g.Params {
+					if prm == y {
+						idx = i
+					}
+				}
+				for _, caller := range p.ModFuncs {
+					for _, in := range core.AllInstrs(caller) {
+						ci, ok := in.(ssa.CallInstruction)
+						if !ok {
+							continue
+						}
+						sc := core.StaticCallee(ci.Common())
+						if sc == nil || (sc != g && sc.Origin() != g) || idx >= len(ci.Common().Args) {
+							continue
+						}
+						if h := fieldHit(ci.Common().Args[idx], up+1, seen); h != nil {
+							hit = h
+							return false
+						}
+					}
+				}
+			}
+			return true
+		})
+		return hit
+	}
+	n := 0
+	for _, fn := range p.ModFuncs {
+		if fn.Pkg == nil || fn.Pkg.Pkg.Path() != core.ModPath+"/"+rel {
+			continue
+		}
+		for _, in := range core.AllInstrs(fn) {
+			ci, ok := in.(ssa.CallInstruction)
+			if !ok {
+				continue
+			}
+			name := core.CalleeName(ci.Common())
+			if !(strings.Contains(name, "slices.SortFunc") || strings.Contains(name, "slices.SortStableFunc") || strings.HasPrefix(name, "sort.Slice") || strings.HasPrefix(name, "sort.SliceStable")) {
+				continue
+			}
+			n++
+			r.Analysed(fn)
+			c := fmt.Sprintf("%s sort #%d", core.FnName(fn), n)
+			arg := ci.Common().Args[0]
+			if mi, isMI := arg.(*ssa.MakeInterface); isMI {
+				arg = mi.X
+			}
+			if h := fieldHit(arg, 0, map[ssa.Value]bool{}); h != nil {
+				r.Violation(ruleID, c, p.Pos(in.Pos()), fmt.Sprintf("the sorted slice may share its backing array with %s (%s): a second query under the read lock re-sorts the entries this one is walking", h.String(), p.Pos(h.Pos())))
+			} else {
+				r.OK(ruleID, c, p.Pos(in.Pos()), "the sorted slice is built by the call itself (fresh or appended to nil)")
+			}
+		}
+	}
+	if n == 0 {
+		r.Fail("%s: no sort call found in %s", ruleID, rel)
 	}
 }
